@@ -73,7 +73,7 @@ fn expected_conv(p: &Param) -> Option<(&'static str, ConvVal)> {
 pub fn run(ctx: &Ctx) -> Report {
     let mut rep = Report::default();
     rep.rule = "cases = executions with parameter counts {0,1,7,8,9,16,17,255,256,300,..}, NULL bitmaps none/all/alternating/single/random, every decodable type code x unsigned flag, integer bounds, every legal temporal length form, strings across lenenc classes; the shim records coltype, the raw value and the Rust conversion matching the bound type (under catch_unwind); a class is a (type, unsigned, length form / value class, NULL) tuple x parameter-count class; non-trivial = a parameter's type, raw value and conversion were compared with what the client encoded".into();
-    let n = if ctx.miri { 3 } else { ctx.n(5000, 250_000) };
+    let n = if ctx.miri { 40 } else { ctx.n(5000, 250_000) };
     let types = param_types();
     let r = par_cases(ctx, "C08", "exec", n, |rng, i, rep| {
         let counts: &[usize] = &[0, 1, 7, 8, 9, 16, 17, 255, 256, 300];
